@@ -32,10 +32,20 @@ template <class L> Segs observeD(const LabeledDirectedGraph<L> &g) {
     return S;
 }
 
+template <class L> Obs queryD(const LabeledDirectedGraph<L> &g, unsigned v) {
+    Obs q;
+    q.push_back(guard([&] { return (Z)g.hasEdge(v, 0); })); q.push_back(guard([&] { return (Z)g.hasEdge(0, v); }));
+    q.push_back(guard([&] { return (Z)g.getOutNeighbours(v).size(); })); q.push_back(guard([&] { return (Z)g.getOutDegree(v); }));
+    q.push_back(guard([&] { return (Z)g.getInDegree(v); }));
+    q.push_back(guard([&] { return Lab<L>::code(g.getEdgeLabel(v, 0, false)); })); q.push_back(guard([&] { return Lab<L>::code(g.getEdgeLabel(0, v, true)); }));
+    q.push_back(guard([&] { return (Z)g.hasEdge(v, 0, Lab<L>::mk(0)); }));
+    return q;
+}
 template <class L> void runD(size_t n0, const std::vector<std::string> &ops) {
     LabeledDirectedGraph<L> g(n0);
     for (auto &op : ops) {
         std::istringstream is(op); std::string k; is >> k; long i = 0, j = 0, l = 0, f = 0;
+        if (k == "Q") { is >> i; Segs o = observeD(g); o.insert(o.begin(), Obs{0}); o.push_back(queryD(g, (unsigned)i)); emit("I", o); continue; }
         Z r = guard([&]() -> Z {
             if (k == "A") { is >> i >> j >> l >> f; g.addEdge(i, j, Lab<L>::mk(l), (bool)f); }
             else if (k == "AR") { is >> i >> j >> l >> f; g.addReciprocalEdge(i, j, Lab<L>::mk(l), (bool)f); }
@@ -48,7 +58,7 @@ template <class L> void runD(size_t n0, const std::vector<std::string> &ops) {
             else if (k == "DD") g.removeDuplicateEdges();
             else throw std::logic_error("unknown op " + k);
             return 0; });
-        Segs o = observeD(g); o.insert(o.begin(), Obs{r}); emit("I", o);
+        Segs o = observeD(g); o.insert(o.begin(), Obs{r}); o.push_back(Obs{}); emit("I", o);
     }
 }
 
@@ -78,10 +88,20 @@ template <class L> Segs observeU(const LabeledUndirectedGraph<L> &g) {
     return S;
 }
 
+template <class L> Obs queryU(const LabeledUndirectedGraph<L> &g, unsigned v) {
+    Obs q;
+    q.push_back(guard([&] { return (Z)g.hasEdge(v, 0); })); q.push_back(guard([&] { return (Z)g.hasEdge(0, v); }));
+    q.push_back(guard([&] { return (Z)g.getNeighbours(v).size(); })); q.push_back(guard([&] { return (Z)g.getDegree(v, true); }));
+    q.push_back(guard([&] { return (Z)g.getDegree(v, false); }));
+    q.push_back(guard([&] { return Lab<L>::code(g.getEdgeLabel(v, 0, false)); })); q.push_back(guard([&] { return Lab<L>::code(g.getEdgeLabel(0, v, true)); }));
+    q.push_back(guard([&] { return (Z)g.hasEdge(v, 0, Lab<L>::mk(0)); }));
+    return q;
+}
 template <class L> void runU(size_t n0, const std::vector<std::string> &ops) {
     LabeledUndirectedGraph<L> g(n0);
     for (auto &op : ops) {
         std::istringstream is(op); std::string k; is >> k; long i = 0, j = 0, l = 0, f = 0;
+        if (k == "Q") { is >> i; Segs o = observeU(g); o.insert(o.begin(), Obs{0}); o.push_back(queryU(g, (unsigned)i)); emit("I", o); continue; }
         Z r = guard([&]() -> Z {
             if (k == "A") { is >> i >> j >> l >> f; g.addEdge(i, j, Lab<L>::mk(l), (bool)f); }
             else if (k == "R") { is >> i >> j; g.removeEdge(i, j); }
@@ -93,7 +113,7 @@ template <class L> void runU(size_t n0, const std::vector<std::string> &ops) {
             else if (k == "DD") g.removeDuplicateEdges();
             else throw std::logic_error("unknown op " + k);
             return 0; });
-        Segs o = observeU(g); o.insert(o.begin(), Obs{r}); emit("I", o);
+        Segs o = observeU(g); o.insert(o.begin(), Obs{r}); o.push_back(Obs{}); emit("I", o);
     }
 }
 
